@@ -202,6 +202,20 @@ var propC18 = e1Prop("C18",
 		return r.Completed >= 10*sc.Script.Config.SegmentCount || (r.RejectedForSize && r.Completed >= 2)
 	})
 
+// C15, muxer half: every playlist a muxer serves parses under the strict grammar.
+var propC15Muxer = func() core.Prop[e1Scenario] {
+	p := e1Prop("C15",
+		"muxer half: scripts of profile 'tracks' (all variants, names/languages, query strings, parameter changes) and every media / multivariant playlist served during them; oracle: harness/m3u8x.Strict accepts each one; non-trivial = at least 5 observations of a Low-Latency or multi-rendition muxer",
+		profTracks, 1, false, true,
+		func(sc e1Scenario, r *mux.E1Result) bool {
+			return r.Observed >= 5 && (sc.Script.Config.Variant == mux.VariantLL || r.Renditions >= 1)
+		})
+	p.Sub = "muxer"
+	return p
+}()
+
+func TestC15Muxer(t *testing.T) { core.Run(t, propC15Muxer) }
+
 func TestC01(t *testing.T) { core.Run(t, propC01) }
 func TestC02(t *testing.T) { core.Run(t, propC02) }
 func TestC03(t *testing.T) { core.Run(t, propC03) }
